@@ -1430,6 +1430,14 @@ val loc_ok : id0 list -> machine -> (id0 option * id0) -> bool
 
 val inv_b : conf -> id0 list -> machine -> bool
 
+val loc_no_self : loc -> bool
+
+val node_no_self : nodeloc -> bool
+
+val cmd_no_self : cmd -> bool
+
+val wf_prog : prog -> bool
+
 val exact_b : id0 list -> machine -> bool
 
 val no_panic_yet : machine -> bool
